@@ -491,6 +491,22 @@ class Domain(object):
         if k == 'branch':
             return self.t_branch(node, state)
         if k == 'join':
+            if node.info.get('hkey') is not None:
+                # remember which exception this handler is handling (restored by a bare re-raise)
+                state = state.with_extra(**{}) if False else state
+                st0 = state.copy()
+                st0.extra[('hexc', node.info['hkey'])] = state.extra.get('exc_src', '?')
+                state = st0
+            if node.info.get('finally_tag', '').startswith('exc:'):
+                st0 = state.copy()
+                st0.extra[('fexc', node.info['fkey'])] = state.extra.get('exc_src', '?')
+                return [(None, st0)]
+            if node.info.get('finally_end', '').startswith('exc:'):
+                st0 = state.copy()
+                saved = st0.extra.pop(('fexc', node.info['fkey']), None)
+                if saved is not None:
+                    st0.extra['exc_src'] = saved
+                return [(None, st0)]
             if node.info.get('binds'):
                 a = node.info['atom']
                 src = state.extra.get('exc_src', '?')
@@ -505,6 +521,11 @@ class Domain(object):
                 v = self.eval(node.info['cm'], fr, state)
                 st = self.assign(node.info['asname'], v, fr, state, node)
             return [(None, self.on_stmt(node, st))]
+        if k == 'raise' and node.info.get('reraise') and node.info.get('handler') is not None:
+            saved = state.extra.get(('hexc', node.info['handler']))
+            if saved is not None and saved != state.extra.get('exc_src'):
+                state = state.with_extra(exc_src=saved)
+            return [(None, self.on_stmt(node, state))]
         if k in ('with-exit', 'yield', 'raise', 'subscript'):
             return [(None, self.on_stmt(node, state))]
         if k == 'exit':
@@ -771,7 +792,7 @@ class Domain(object):
                     elif node.kind == 'call' and lab.startswith('exc:'):
                         continue
                     st2 = st
-                    if lab.startswith('exc:') and node.kind in ('raise',):
+                    if lab.startswith('exc:') and node.kind in ('raise',) and not node.info.get('reraise'):
                         st2 = st.with_extra(exc_src=node.info.get('what', 'raise'))
                     st2 = self.on_edge(node, lab, dst, st2)
                     if st2 is None:
